@@ -4,6 +4,7 @@ import (
 	"strings"
 
 	"github.com/nelhage/taktician/bitboard"
+	"github.com/nelhage/taktician/ptn"
 	"github.com/nelhage/taktician/tak"
 )
 
@@ -21,7 +22,7 @@ func eqU64s(a, b []uint64) bool {
 
 // wfBoard evaluates, on the real code's data, the hypothesis of the C02 theorems:
 // size 3..8, bitboards on the board, colours disjoint, walls/capstones on occupied squares and
-// disjoint, the stored groups are what FloodGroups yields for the road bitboards, reserve sums fit a byte.
+// disjoint, the stored groups are what FloodGroups yields for the road bitboards.
 func wfBoard(r tak.VerifRaw) bool {
 	if r.Size < 3 || r.Size > 8 {
 		return false
@@ -44,13 +45,15 @@ func wfBoard(r tak.VerifRaw) bool {
 	if !eqU64s(wg, r.WG) || !eqU64s(bg, r.BG) {
 		return false
 	}
-	if int(r.WS)+int(r.WC) > 255 || int(r.BS)+int(r.BC) > 255 {
-		return false
-	}
 	return true
 }
 
 func init() {
+	// ptn.ResultFromGame panics when the game is not over (execLine maps that to "panic")
+	opTable["result"] = func(s *Session, a []string) string {
+		return ptn.ResultFromGame(decPos(a[0])).Result
+	}
+	opTable["sresult"] = opTable["result"]
 	opTable["wfb"] = func(s *Session, a []string) string {
 		f := strings.Split(a[0], "/")
 		if len(f) != 18 {
